@@ -9,6 +9,8 @@
    NOT formalised (said in the CLAIM note as well): "subset-sum estimates are unbiased over the sampling randomness"
    as a statement about whole histories.  `vo_one_step_unbiased` is the one-step identity it follows from. -/
 import DSProofs.Lemmas.VarOptStep
+import DSProofs.Lemmas.VarOptResult
+import DSProofs.Lemmas.VarOptSerde
 namespace DS.VarOpt
 open DS
 
@@ -241,5 +243,228 @@ example : ∃ (M : List E) (W : Rat) (c : Nat), 2 ≤ M.length ∧ c = M.length 
     (∀ e ∈ M, e.wt * ((c : Rat) - 1) < W) ∧ 0 ≤ (nextDouble exDraws).1 :=
   ⟨[⟨1, 3, false⟩, ⟨2, 4, false⟩], 27, 4, by decide, rfl, by norm_num, by
     intro e he; simp at he; rcases he with rfl | rfl <;> norm_num, by norm_num [nextDouble, exDraws, Num.ofFrac]⟩
+
+-- ====================================================================================== union
+
+/-- the sketch `sk` is what some stream `items` of positive weights (any k, any fill, any draws) leaves behind -/
+def FromStream (sk : Sk Rat) (items : List (Int × Rat)) : Prop :=
+  ∃ (T : Tunables) (k rf : Nat) (s0 : Sk Rat) (ds ds' : Draws Rat),
+    Sk.new T k rf false = some s0 ∧ (∀ p ∈ items, 0 < p.2) ∧ feed false items s0 ds = some (sk, ds')
+
+theorem FromStream.inv {sk : Sk Rat} {items : List (Int × Rat)} (h : FromStream sk items) :
+    ∃ ins L, Inv sk ins L ∧ sumW ins = totalW items ∧ sk.n = items.length := by
+  obtain ⟨T, k, rf, s0, ds, ds', h0, hpos, hf⟩ := h
+  obtain ⟨hinv0, _, _, _⟩ := new_inv T k rf false s0 h0
+  obtain ⟨s, ds2, L, hf', hinv, _, _, _, _⟩ := feed_spec false items s0 [] [] ds hinv0 hpos (by simp)
+  rw [hf] at hf'
+  injection hf' with hf'; injection hf' with h1 h2
+  subst h1
+  exact ⟨_, L, hinv, by rw [List.append_nil, sumW_entriesOf], by rw [hinv.n_eq]; simp [length_entriesOf]⟩
+
+theorem unionAll_spec (inputs : List (Sk Rat × List (Int × Rat))) (hin : ∀ p ∈ inputs, FromStream p.1 p.2) :
+    ∀ (u : Un Rat) (insG LG : List E) (tot : Rat) (cnt : Nat) (ds : Draws Rat), UInv u insG LG tot cnt →
+    ∃ u' ds' insG' LG', unionAll u (inputs.map (·.1)) ds = some (u', ds') ∧
+      UInv u' insG' LG' (tot + sumR (inputs.map (fun p => totalW p.2))) (cnt + (inputs.map (fun p => p.2.length)).sum) ∧
+      u'.maxK = u.maxK := by
+  induction inputs with
+  | nil =>
+    intro u insG LG tot cnt ds hu
+    exact ⟨u, ds, insG, LG, rfl, by simpa [sumR] using hu, rfl⟩
+  | cons p t ih =>
+    intro u insG LG tot cnt ds hu
+    obtain ⟨ins, L, hinv, htot, hn⟩ := (hin p (by simp)).inv
+    obtain ⟨u1, ds1, insG1, LG1, hup, hu1, hk1⟩ := unUpdate_spec u insG LG tot cnt hu p.1 ins L hinv ds
+    obtain ⟨u2, ds2, insG2, LG2, hall, hu2, hk2⟩ := ih (fun q hq => hin q (by simp [hq])) u1 insG1 LG1 _ _ ds1 hu1
+    refine ⟨u2, ds2, insG2, LG2, ?_, ?_, by rw [hk2, hk1]⟩
+    · simp only [List.map_cons, unionAll, hup, hall]
+    · have e1 : tot + sumW ins + sumR (t.map (fun p => totalW p.2)) = tot + sumR ((p :: t).map (fun p => totalW p.2)) := by
+        simp [sumR, htot]; ring
+      have e2 : cnt + p.1.n + (t.map (fun p => p.2.length)).sum = cnt + ((p :: t).map (fun p => p.2.length)).sum := by
+        simp [hn]; omega
+      rw [← e1, ← e2]; exact hu2
+
+/-- **vo_union.** Merging any list of sketches (each the result of any stream with any k) into a union of any
+    `max_k`, with any draws: no `update` throws; the union's `n` is the sum of the inputs' `n`; and whenever
+    `get_result` returns (does not throw), the result has that `n`, represents exactly the combined total weight
+    (`Σ_H w + total_wt_r`), holds `h + r ≤ k_result ≤ max_k` samples, and carries no marks.
+    ("smallest effective k" is read as the k of the returned sketch; an exact-mode input contributes all its items, so
+    `min k_i` over the inputs is not a bound of the algorithm.)  Partial in two respects, see
+    `vo_union_wellformed_full_false`: `get_result` can return a state that is not a valid estimation-mode state, and
+    "returns" is a hypothesis. -/
+theorem vo_union (T : Tunables) (maxK : Nat) (u0 : Un Rat) (hu0 : Un.new T maxK = some u0)
+    (inputs : List (Sk Rat × List (Int × Rat))) (hin : ∀ p ∈ inputs, FromStream p.1 p.2) (ds : Draws Rat) :
+    ∃ u ds', unionAll u0 (inputs.map (·.1)) ds = some (u, ds') ∧
+      u.n = (inputs.map (fun p => p.2.length)).sum ∧
+      ∀ (ds2 : Draws Rat) (res : Sk Rat) (ds3 : Draws Rat), u.getResult T ds2 = some (res, ds3) →
+        res.n = u.n ∧ skWeight res = sumR (inputs.map (fun p => totalW p.2)) ∧
+        res.H.length + res.R.length ≤ res.k ∧ res.k ≤ maxK ∧ res.numSamples ≤ maxK ∧
+        res.gadget = false ∧ res.numMarksInH = 0 ∧ (∀ e ∈ res.H, e.mark = false) := by
+  obtain ⟨hinv0, hk0⟩ := newUnion_inv T maxK u0 hu0
+  obtain ⟨u, ds', insG, LG, hall, hu, hk⟩ := unionAll_spec inputs hin u0 [] [] 0 0 ds hinv0
+  simp only [zero_add, Nat.zero_add] at hu
+  refine ⟨u, ds', hall, hu.n_eq, ?_⟩
+  intro ds2 res ds3 hres
+  obtain ⟨hok, _⟩ := getResult_spec T u insG LG _ _ hu ds2 res ds3 hres
+  refine ⟨by rw [hok.n_eq, hu.n_eq], hok.weight, hok.size, by rw [← hk0, ← hk]; exact hok.kLe, ?_, hok.notGadget,
+    hok.noMarkCount, hok.noMarks⟩
+  unfold Sk.numSamples
+  have := hok.kLe; rw [hk, hk0] at this
+  omega
+
+-- concrete inputs for the examples and the witnesses below
+def wDs : Draws Rat := ⟨[1/2, 1/2, 1/2, 1/2, 1/2, 1/2], [1, 1, 1, 1, 1, 1]⟩
+def wNew (k : Nat) : Sk Rat := ((Sk.new exT k 0 false : Option (Sk Rat)).getD
+  ⟨1, 0, [], [], [], 0, false, 0, false, 0, 0⟩)
+def wItemsA : List (Int × Rat) := [(1, 10), (2, 10), (3, 10)]
+def wItemsB : List (Int × Rat) := [(4, 1)]
+/-- k = 2 sketch after three items of weight 10: h = 0, r = 2, tau = 15 -/
+def wA : Sk Rat := ((feed false wItemsA (wNew 2) wDs).getD (wNew 2, wDs)).1
+/-- k = 10 sketch holding one item of weight 1 (exact mode) -/
+def wB : Sk Rat := ((feed false wItemsB (wNew 10) wDs).getD (wNew 10, wDs)).1
+
+theorem wA_fromStream : FromStream wA wItemsA :=
+  ⟨exT, 2, 0, wNew 2, wDs, ((feed false wItemsA (wNew 2) wDs).getD (wNew 2, wDs)).2, rfl, by decide, rfl⟩
+theorem wB_fromStream : FromStream wB wItemsB :=
+  ⟨exT, 10, 0, wNew 10, wDs, ((feed false wItemsB (wNew 10) wDs).getD (wNew 10, wDs)).2, rfl, by decide, rfl⟩
+
+example : ∃ u0, Un.new (α := Rat) exT 10 = some u0 ∧ (∀ p ∈ [(wA, wItemsA), (wB, wItemsB)], FromStream p.1 p.2) :=
+  ⟨_, rfl, by
+    intro p hp
+    simp at hp
+    rcases hp with rfl | rfl
+    · exact wA_fromStream
+    · exact wB_fromStream⟩
+
+/-- full statement: whatever `get_result` returns is a valid VarOpt state (in estimation mode H is a min-heap and no
+    H item is lighter than tau) — what later `update`s of the result rely on -/
+def vo_union_wellformed_full : Prop :=
+  ∀ (T : Tunables) (maxK : Nat) (u0 : Un Rat), Un.new T maxK = some u0 →
+    ∀ (inputs : List (Sk Rat × List (Int × Rat))), (∀ p ∈ inputs, FromStream p.1 p.2) →
+      ∀ (ds : Draws Rat) (u : Un Rat) (ds' : Draws Rat), unionAll u0 (inputs.map (·.1)) ds = some (u, ds') →
+        ∀ (ds2 : Draws Rat) (res : Sk Rat) (ds3 : Draws Rat), u.getResult T ds2 = some (res, ds3) → WellFormed res
+
+def wU0 : Un Rat := ((Un.new exT 10 : Option (Un Rat)).getD ⟨0, 0, 0, 0, wNew 1⟩)
+def wU : Un Rat := ((unionAll wU0 [wA, wB] wDs).getD (wU0, wDs)).1
+def wRes : Sk Rat := ((wU.getResult exT wDs).getD (wNew 1, wDs)).1
+
+/-- **The current code violates it** (open finding `union-result-sample-lighter-than-tau`; the same coercer also
+    skips re-heapifying, finding `union-result-not-heap-ordered`).  Witness: k = 2 sketch after three items of weight
+    10 (tau 15) and a k = 10 sketch holding one item of weight 1, united with max_k = 10: the pseudo-exact coercer
+    (whose guard compares against NaN) returns H = {(4, 1)}, R = two items of total weight 30: 1 < tau = 15.
+    Replayed on the real code by corpus/regress/C16/w3-*.txt (and w4-*.txt). -/
+theorem vo_union_wellformed_full_false : ¬ vo_union_wellformed_full := by
+  intro h
+  have hin : ∀ p ∈ [(wA, wItemsA), (wB, wItemsB)], FromStream p.1 p.2 := by
+    intro p hp
+    simp at hp
+    rcases hp with rfl | rfl
+    · exact wA_fromStream
+    · exact wB_fromStream
+  have hsome0 : (unionAll wU0 [wA, wB] wDs).isSome = true := by decide +kernel
+  cases hall : unionAll wU0 [wA, wB] wDs with
+  | none => rw [hall] at hsome0; exact absurd hsome0 (by simp)
+  | some q =>
+    obtain ⟨u, ds'⟩ := q
+    have hu : wU = u := by simp [wU, hall]
+    have hsome : (wU.getResult exT wDs).isSome = true := by decide +kernel
+    cases hres : wU.getResult exT wDs with
+    | none => rw [hres] at hsome; exact absurd hsome (by simp)
+    | some p =>
+      obtain ⟨res, ds3⟩ := p
+      have hwf := h exT 10 wU0 rfl [(wA, wItemsA), (wB, wItemsB)] hin wDs u ds' hall wDs res ds3 (by rw [← hu]; exact hres)
+      have hres' : wRes = res := by simp [wRes, hres]
+      rw [← hres'] at hwf
+      have hR : wRes.R ≠ [] := by decide +kernel
+      have hall' : wRes.H.all (fun e => decide (wRes.totalWtR / (wRes.R.length : Rat) ≤ e.wt)) = true := by
+        rw [List.all_eq_true]
+        intro e he
+        simpa using (hwf hR).2 e he
+      revert hall'
+      decide +kernel
+
+/-- **vo_union_wellformed_partial.** The result IS a valid state whenever the pseudo-exact mark-moving coercer is not
+    the path taken (no marked items in the gadget's H, or the general `migrate_marked_items_by_decreasing_k` path). -/
+theorem vo_union_wellformed_partial (T : Tunables) (maxK : Nat) (u0 : Un Rat) (hu0 : Un.new T maxK = some u0)
+    (inputs : List (Sk Rat × List (Int × Rat))) (hin : ∀ p ∈ inputs, FromStream p.1 p.2) (ds : Draws Rat)
+    (u : Un Rat) (ds' : Draws Rat) (hall : unionAll u0 (inputs.map (·.1)) ds = some (u, ds'))
+    (ds2 : Draws Rat) (res : Sk Rat) (ds3 : Draws Rat) (hres : u.getResult T ds2 = some (res, ds3))
+    (hpath : pseudoExact T u { u.gadget with n := u.n } = none) : WellFormed res := by
+  obtain ⟨hinv0, _⟩ := newUnion_inv T maxK u0 hu0
+  obtain ⟨u', ds'', insG, LG, hall', hu, _⟩ := unionAll_spec inputs hin u0 [] [] 0 0 ds hinv0
+  rw [hall] at hall'
+  injection hall' with hall'; injection hall' with h1 h2
+  subst h1
+  exact (getResult_spec T u insG LG _ _ hu ds2 res ds3 hres).2 hpath
+
+example : (pseudoExact (α := Rat) exT wU0 { wU0.gadget with n := wU0.n }).isNone = true := by decide +kernel
+
+-- ====================================================================================== serialize -> deserialize
+
+/-- full statement: a sketch that went through serialize → deserialize keeps accepting the stream -/
+def vo_serde_update_full : Prop :=
+  ∀ (sk : Sk Rat) (items : List (Int × Rat)), FromStream sk items →
+    ∀ (T : Tunables) (sk2 : Sk Rat), serdeRoundTrip T sk = some sk2 →
+      ∀ (x : Int) (w : Rat) (ds : Draws Rat), 0 < w → (update sk2 x w false ds).isSome = true
+
+def wA2 : Sk Rat := ((serdeRoundTrip exT wA).getD wA)
+
+/-- **The current code violates it** (open finding `update-throws-after-deserialize`): `deserialize` constructs an
+    estimation-mode sketch with `m_ = 1`, and every update path then fails an entry check.  Witness: the k = 2 sketch
+    after three items of weight 10, through bytes, then `update(4, 3)`.  Replayed by corpus/regress/C16/w1-*.txt. -/
+theorem vo_serde_update_full_false : ¬ vo_serde_update_full := by
+  intro h
+  have hsome : (serdeRoundTrip exT wA).isSome = true := by decide +kernel
+  cases hs : serdeRoundTrip exT wA with
+  | none => rw [hs] at hsome; exact absurd hsome (by simp)
+  | some sk2 =>
+    have := h wA wItemsA wA_fromStream exT sk2 hs 4 3 wDs (by norm_num)
+    have h2 : wA2 = sk2 := by simp [wA2, hs]
+    rw [← h2] at this
+    revert this
+    decide +kernel
+
+/-- **vo_serde_queries_partial.** What does hold: serialize → deserialize of a (non-gadget) sketch succeeds and the
+    copy answers every query identically (n, k, number of samples, iterator output, subset sums); and a sketch that is
+    still in warm-up keeps accepting updates. -/
+theorem vo_serde_queries_partial (sk : Sk Rat) (items : List (Int × Rat)) (hfs : FromStream sk items) (T : Tunables)
+    (hk : sk.k ≤ T.maxK) (hne : sk.isEmpty = false) :
+    ∃ sk2, serdeRoundTrip T sk = some sk2 ∧ sk2.n = sk.n ∧ sk2.k = sk.k ∧ sk2.numSamples = sk.numSamples ∧
+      sk2.samples = sk.samples ∧ (∀ B p, estimateSubsetSum B sk2 p = estimateSubsetSum B sk p) ∧
+      (sk.R = [] → ∀ (x : Int) (w : Rat) (ds : Draws Rat), 0 < w → (update sk2 x w false ds).isSome = true) := by
+  obtain ⟨T0, k, rf, s0, ds, ds', h0, hpos, hf⟩ := hfs
+  obtain ⟨hinv0, _, hg0, _⟩ := new_inv T0 k rf false s0 h0
+  obtain ⟨s, ds2, L, hf', hinv, _, hg, _, _⟩ := feed_spec false items s0 [] [] ds hinv0 hpos (by simp)
+  rw [hf] at hf'
+  injection hf' with hf'; injection hf' with h1 h2
+  subst h1
+  have hgad : sk.gadget = false := by rw [hg, hg0]
+  obtain ⟨a, hform⟩ := serde_formula T sk _ L hinv hgad hk hne
+  refine ⟨_, hform, rfl, rfl, rfl, ?_, ?_, ?_⟩
+  · by_cases hR : sk.R = []
+    · simp [Sk.samples, hR]
+    · have : sk.R.length > 0 := length_pos_of_ne_nil hR
+      simp [Sk.samples, this]
+  · intro B p
+    by_cases hR : sk.R = []
+    · simp [estimateSubsetSum, hR]
+    · have : sk.R.length > 0 := length_pos_of_ne_nil hR
+      simp [estimateSubsetSum, this]
+  · intro hR x w ds3 hw
+    obtain ⟨hL, hhk, hW0⟩ := hinv.warm hR
+    have hrl : sk.R.length = 0 := by rw [hR]; rfl
+    have hi : Inv { sk with M := [], totalWtR := if sk.R.length > 0 then sk.totalWtR else 0,
+                            numMarksInH := 0, mStale := decide (sk.R.length > 0), alloc := a }
+        (entriesOf s0.gadget false items ++ []) L := by
+      refine { kpos := hinv.kpos, mnil := rfl, fresh := by simp [hrl], n_eq := hinv.n_eq, perm := hinv.perm,
+               pos := hinv.pos, marks := ?_, warm := fun _ => ⟨hL, hhk, by simp [hrl]⟩, est := fun h => absurd hR h }
+      constructor
+      · show 0 = countMarks sk.H
+        unfold countMarks
+        rw [List.filter_eq_nil_iff.mpr (fun e he => by simp [hinv.marks.2 hgad e he])]; rfl
+      · exact hinv.marks.2
+    obtain ⟨s', ds4, L', hu, _⟩ := update_spec _ _ L hi x w false ds3 hw (by simp)
+    rw [hu]; rfl
+
+example : FromStream wA wItemsA ∧ wA.k ≤ exT.maxK ∧ wA.isEmpty = false := ⟨wA_fromStream, by decide +kernel, by decide +kernel⟩
 
 end DS.VarOpt
